@@ -29,6 +29,10 @@ func NewDateFrom(t time.Time) Date { return Date(t) }
 func (d Date) Time() time.Time { return time.Time(d) }
 `
 
+// birthCompanions: the companions of Date for a date type of another name (the constructor keeps the
+// name NewDateFrom: sqlcrud calls it by that name whatever the date type is called).
+var birthCompanions = strings.ReplaceAll(strings.ReplaceAll(dateCompanions, "Date", "BirthDate"), "NewBirthDateFrom", "NewDateFrom")
+
 const stampCompanions = `
 func (d Stamp) MarshalJSON() ([]byte, error) { return time.Time(d).MarshalJSON() }
 
@@ -225,6 +229,8 @@ func slotAlts() []slotAlt {
 		{label: "uintptr", typ: "uintptr"},
 		{label: "rec-array-pointer", typ: "Quad", declA: "type Quad [4]*Quad\n", local: true},
 		{label: "rec-array-mutual", typ: "ArrA", declA: "type ArrA [2]*ArrB\n\ntype ArrB [3]*ArrA\n", local: true},
+		// a date is a named time.Time whose name contains "date", in any case and anywhere in the name
+		{label: "BirthDate", typ: "BirthDate", declB: "type BirthDate time.Time\n" + birthCompanions, local: true},
 	}
 	return l
 }
